@@ -15,6 +15,12 @@ def run(c):
         r = rng.choice([rng.rng(n1, max(n1, k * n1 // 2 + 3)), rng.rng(n1, n1 + 6), n1 + 1, min(60, k * n1)])
         r = max(r, n1)
         reqs.append(sessions.Req(sessions.LDPC, k, r, rng.choice([1, 4, 9]), n1, rng.rng(1, 2 ** 31 - 2), 0, 0, 0, 2, [], pseed=rng.below(10 ** 9)))
+    # configurations outside the advertised limits (N1 above n-k): rejected by a correct library and then skipped below; if the library
+    # configures such a session, the claim it makes is checked like any other
+    for n1 in (4, 6, 8, 5):
+        for r in range(1, n1):
+            for k in (1, 2, 5, 12):
+                reqs.append(sessions.Req(sessions.LDPC, k, r, 4, n1, rng.rng(1, 2 ** 31 - 2), 0, 0, 0, 2, [], pseed=rng.below(10 ** 9)))
     ans, crashes = ldpc.run_dec(c.snap, [q.line() for q in reqs])
     for kx, se in crashes[:5]:
         c.violation("session crashed: %s" % ans[kx][:200], "session-crash", {"request": reqs[kx].line(), "stderr": se})
